@@ -617,7 +617,7 @@ class Interp:
                             if p_ not in nodes and p_ in idom:
                                 nodes.add(p_)
                                 st.append(p_)
-                    e = lp.setdefault(h, {"nodes": set(), "assigned": set()})
+                    e = lp.setdefault(h, {"nodes": set(), "assigned": set(), "header": h})
                     e["nodes"] |= nodes
         for h, e in lp.items():
             for n in e["nodes"]:
